@@ -397,7 +397,7 @@ def declare(reg):
             5: {"invariant": {}},
         },
         locals_={"new_msgs": "dict[int,opaque:EmailMessage]", "notifications": "list[str]", "msg_sequences": "set[str]", "msg_seqs": "defaultdict[str,set[int]]"},
-        props=["C02", "C13", "C01"],
+        props=["C02", "C13", "C01", "C03"],
         ghost={"harness": "harness.mboxops:Resync", "inv_except": ["seq-keys-exist"], "call_asserts": {"push": {
             # C01: the new message count is announced directly only to a session with nothing queued (or idling);
             # otherwise it is queued *behind* the pending EXPUNGEs (the count already has them applied)
